@@ -64,7 +64,12 @@ where
 
         let processed_message = match group.process_message(&self.provider, protocol_message) {
             Ok(processed_message) => processed_message,
-            Err(ProcessMessageError::ValidationError(ValidationError::WrongEpoch)) => {
+            // Only commits compete for an epoch under MIP-03. A proposal or application
+            // message from another epoch must never be treated as a "better commit"
+            // candidate (it would trigger a rollback), so it takes the generic error path.
+            Err(ProcessMessageError::ValidationError(ValidationError::WrongEpoch))
+                if content_type == ContentType::Commit =>
+            {
                 return Err(Error::ProcessMessageWrongEpoch(msg_epoch));
             }
             Err(ProcessMessageError::ValidationError(ValidationError::CannotDecryptOwnMessage)) => {
